@@ -42,7 +42,28 @@ Definition ok_csets (c : case) : bool :=
   | Case T evs observed => match csets None (concat observed) with Some _ => true | None => false end
   end.
 
-(* part 2: the walk *)
+(* part 2: only submitted arguments — every element of every set passed to the function had been handed
+   over by the script up to that step (tracker).  Proved complete. *)
+Definition on_obO (k : trk) (o : obs) (x : unit) : option unit :=
+  match o with
+  | FnStart c set t => if subset set (offered_args k) then Some tt else None
+  | _ => Some tt
+  end.
+Definition ok_offered (c : case) : bool :=
+  match c with
+  | Case T evs observed =>
+      match walk unit (fun _ _ _ x => x) on_obO evs observed trk0 tt with Some _ => true | None => false end
+  end.
+
+(* part 3: own-thread scripts handing over distinct arguments: no argument in two successful calls.
+   Proved complete. *)
+Definition ok_once (c : case) : bool :=
+  match c with
+  | Case T evs observed =>
+      if own_thread evs && nodupb (offered_args (trk_run trk0 evs)) then nodupb (okargs (concat observed)) else true
+  end.
+
+(* part 4: the walk *)
 Definition ok_walk (c : case) : bool :=
   match c with
   | Case T evs observed =>
@@ -56,7 +77,7 @@ Definition ok_walk (c : case) : bool :=
       end
   end.
 
-Definition ok (c : case) : bool := ok_csets c && ok_walk c.
+Definition ok (c : case) : bool := ok_csets c && ok_offered c && ok_once c && ok_walk c.
 
 Definition nontrivial (c : case) : bool :=
   match c with
